@@ -1,5 +1,5 @@
 SPECIFICATION GenSpec
-CONSTANTS NId = 2 Maxes = {0, 2, 3, 5, 12} Lens = {0, 1, 2, 3, 4, 5, 8, 11, 12, 13} TraitsMax = 12 ValSz = 4 PtrSz = 8 Limit = 65535 CodeOrder = FALSE
+CONSTANTS NId = 2 Maxes = {0, 5, 12} Lens = {0, 1, 2, 4, 5, 11, 12} TraitsMax = 12 ValSz = 4 PtrSz = 8 Limit = 65535 CodeOrder = FALSE
 VIEW Skel
 ACTION_CONSTRAINT Emit
 CHECK_DEADLOCK FALSE
